@@ -100,7 +100,7 @@ func genContainer(t *rapid.T, g *genState, depth int) VD {
 	for i := 0; i < 4; i++ {
 		d := genVDIn(t, g, depth)
 		switch d.K {
-		case "list", "vector", "array", "map", "jsonmap", "sexpr", "ref":
+		case "list", "vector", "array", "map", "jsonmap", "sexpr", "ref", "lambda":
 			return d
 		}
 	}
@@ -291,10 +291,86 @@ func genArgFor(t *rapid.T, g *genState, c *Callable, name string) VD {
 	return genVDIn(t, g, 3)
 }
 
+// genKeywordTail draws the keyword part of a call to a callable with &key
+// formals: well-formed pairs, and the malformed layouts a program can write --
+// a DANGLING keyword as the last argument, an unknown or repeated keyword, a
+// value where a keyword belongs, a keyword as a value.
+func genKeywordTail(t *rapid.T, g *genState, c *Callable) []VD {
+	kw := func(k string) VD { return VD{K: "sym", S: []byte(":" + k), Q: rapid.SampledFrom([]int{0, 0, 0, 1}).Draw(t, "kq")} }
+	var out []VD
+	for _, k := range c.Keys {
+		if rapid.Bool().Draw(t, "usekey") {
+			out = append(out, kw(k), genArgFor(t, g, c, k))
+		}
+	}
+	key := c.Keys[rapid.IntRange(0, len(c.Keys)-1).Draw(t, "whichkey")]
+	switch rapid.IntRange(0, 9).Draw(t, "tail") {
+	case 0, 1, 2:
+		out = append(out, kw(key)) // dangling keyword
+	case 3:
+		out = append(out, kw("nosuchkey"), genAtom(t))
+	case 4:
+		out = append(out, kw(key), kw(key)) // keyword as the value of a keyword
+	case 5:
+		out = append(out, genAtom(t), kw(key)) // value in keyword position
+	case 6:
+		out = append(out, kw("nosuchkey")) // dangling unknown keyword
+	}
+	return out
+}
+
+// keywordCallables are the registered callables with &key formals.
+var keywordCallables = func() []int {
+	var out []int
+	for i, c := range callables {
+		if len(c.Keys) > 0 {
+			out = append(out, i)
+		}
+	}
+	return out
+}()
+
+// genKeywordCall draws an application of a keyword-taking function THROUGH
+// funcall / apply (the function is a registered callable with &key formals or
+// the (a &optional b &key c) lambda).
+func genKeywordCall(t *rapid.T) Apply {
+	g := &genState{}
+	via := rapid.SampledFrom([]string{"funcall", "apply"}).Draw(t, "kwvia")
+	a := Apply{Pkg: "lisp", Name: via, Via: rapid.SampledFrom([]string{"direct", "eval"}).Draw(t, "route")}
+	var inner []VD
+	if rapid.IntRange(0, 3).Draw(t, "lam") == 0 || len(keywordCallables) == 0 {
+		a.Args = append(a.Args, VD{K: "fun", I: 8}) // (lambda (a &optional b &key c) ...)
+		lam := &Callable{Pkg: "user", Name: "lambda", FunType: "function", Req: []string{"a"}, Opt: []string{"b"}, Keys: []string{"c"}}
+		inner = append(inner, genAtom(t), genAtom(t))
+		inner = append(inner, genKeywordTail(t, g, lam)...)
+	} else {
+		c := &callables[keywordCallables[rapid.IntRange(0, len(keywordCallables)-1).Draw(t, "kwc")]]
+		a.Args = append(a.Args, VD{K: "fun", I: 0, S: []byte(c.Pkg + ":" + c.Name)})
+		for _, n := range c.Req {
+			inner = append(inner, genArgFor(t, g, c, n))
+		}
+		for _, n := range c.Opt {
+			inner = append(inner, genArgFor(t, g, c, n))
+		}
+		inner = append(inner, genKeywordTail(t, g, c)...)
+	}
+	if via == "apply" {
+		split := rapid.IntRange(0, len(inner)).Draw(t, "split")
+		a.Args = append(a.Args, inner[:split]...)
+		a.Args = append(a.Args, VD{K: "list", L: append([]VD{}, inner[split:]...)})
+	} else {
+		a.Args = append(a.Args, inner...)
+	}
+	return a
+}
+
 func f64bits(f float64) uint64 { return math.Float64bits(f) }
 
 func genApply() *rapid.Generator[Apply] {
 	return rapid.Custom(func(t *rapid.T) Apply {
+		if rapid.IntRange(0, 19).Draw(t, "kwcall") == 0 {
+			return genKeywordCall(t)
+		}
 		c := &callables[rapid.IntRange(0, len(callables)-1).Draw(t, "callable")]
 		a := Apply{Pkg: c.Pkg, Name: c.Name, Via: "direct"}
 		if rapid.IntRange(0, 3).Draw(t, "via") == 0 {
@@ -318,11 +394,7 @@ func genApply() *rapid.Generator[Apply] {
 				a.Args = append(a.Args, genArgFor(t, g, c, n))
 			}
 			if len(c.Keys) > 0 && len(names) == len(c.Req)+len(c.Opt) {
-				for _, k := range c.Keys {
-					if rapid.Bool().Draw(t, "usekey") {
-						a.Args = append(a.Args, VD{K: "sym", S: []byte(":" + k)}, genArgFor(t, g, c, k))
-					}
-				}
+				a.Args = append(a.Args, genKeywordTail(t, g, c)...)
 			}
 		} else {
 			n := rapid.IntRange(0, c.NFormals+2).Draw(t, "n")
@@ -345,7 +417,7 @@ func hostileKinds(b *builder) string {
 	var ks []string
 	for k := range b.kinds {
 		switch k {
-		case "list", "sexpr", "vector", "array", "map", "jsonmap", "native", "error", "fun", "tagged", "typedef", "ref":
+		case "list", "sexpr", "vector", "array", "map", "jsonmap", "native", "error", "fun", "tagged", "typedef", "ref", "lambda":
 			ks = append(ks, k)
 		}
 	}
@@ -581,6 +653,9 @@ func checkApplyInner(a Apply, ctx recorder, wd, wdAlone time.Duration) *vcommon.
 		return vcommon.Failf("panic/"+kq+"/"+panicClass(msg)+siteSuffix(panicSite(gs)),
 			"(%s ...) via %s answered the internal-panic condition: %s\nargs: %s\n%s", qual, a.Via, msg, args, clip(gs, 3000))
 	}
+	if h, i := findNilCell(o.res); h != nil {
+		return vcommon.Failf("nil-cell/"+kq, "(%s ...) via %s returned a value holding a Go-nil *LVal (cell %d of a %v): the next reader of it dereferences nil\nargs: %s", qual, a.Via, i, h.Type, args)
+	}
 	if o.res.Type == lisp.LError {
 		ctx.Class("result/error")
 	} else {
@@ -640,7 +715,7 @@ func describeVD(d VD, depth int) string {
 		return fmt.Sprintf("ref->#%d", d.ID)
 	case "array":
 		return fmt.Sprintf("%s#%d array%v%s", q, d.ID, d.D, describeKids(d, depth))
-	case "list", "sexpr", "vector", "map", "jsonmap", "tagged", "error":
+	case "list", "sexpr", "vector", "map", "jsonmap", "tagged", "error", "lambda":
 		return fmt.Sprintf("%s#%d %s%s", q, d.ID, d.K, describeKids(d, depth))
 	}
 	return q + d.K
